@@ -128,7 +128,7 @@ theorem start_tag_binds_each_prefix_once_fails_without_numbered_prefixes :
       fx.reserved = true → consistent (reservedOf valPfx attrs) = true →
       ((declared (startTagItems fx st ns value valPfx attrs).1).map (·.1)).Nodup := by
   intro h
-  have := h ⟨false, true⟩ [] none [] []
+  have := h ⟨false, true, true⟩ [] none [] []
     [⟨none, none, [97], [112, 58, 120], [(some [112], [50])]⟩, ⟨some [112], some [49], [98], [118], []⟩] rfl (by decide)
   revert this
   decide
@@ -160,9 +160,9 @@ theorem attr_prefix_resolves_fails_without_reserved_check :
       fx.numbered = true →
       AttrsResolve (startTagItems fx st ns value valPfx attrs).2 attrs (attrsOf (startTagItems fx st ns value valPfx attrs).1) := by
   intro h
-  have := h ⟨true, false⟩ [(some [113], [117, 49])] none [] []
+  have := h ⟨true, false, true⟩ [(some [113], [117, 49])] none [] []
     [⟨some [112], some [117, 49], [97], [113, 58, 120], [(some [113], [117, 50])]⟩] rfl
-  have e : startTagItems ⟨true, false⟩ [(some [113], [117, 49])] none [] []
+  have e : startTagItems ⟨true, false, true⟩ [(some [113], [117, 49])] none [] []
       [⟨some [112], some [117, 49], [97], [113, 58, 120], [(some [113], [117, 50])]⟩] =
       ([.decl (some [113]) [117, 50], .attr (some [113]) [97] [113, 58, 120]],
        [(some [113], [117, 50]), (some [113], [117, 49])]) := by decide
@@ -178,9 +178,9 @@ theorem attr_prefix_resolves_fails_without_numbered_prefixes :
       fx.reserved = true →
       AttrsResolve (startTagItems fx st ns value valPfx attrs).2 attrs (attrsOf (startTagItems fx st ns value valPfx attrs).1) := by
   intro h
-  have := h ⟨false, true⟩ [(some [112], [117, 50])] none [] []
+  have := h ⟨false, true, true⟩ [(some [112], [117, 50])] none [] []
     [⟨some [120], some [117, 50], [97], [118], []⟩, ⟨some [112], some [117, 49], [98], [119], []⟩] rfl
-  have e : startTagItems ⟨false, true⟩ [(some [112], [117, 50])] none [] []
+  have e : startTagItems ⟨false, true, true⟩ [(some [112], [117, 50])] none [] []
       [⟨some [120], some [117, 50], [97], [118], []⟩, ⟨some [112], some [117, 49], [98], [119], []⟩] =
       ([.attr (some [112]) [97] [118], .decl (some [112]) [117, 49], .attr (some [112]) [98] [119]],
        [(some [112], [117, 49]), (some [112], [117, 50])]) := by decide
@@ -240,9 +240,9 @@ open XmlTree in
     level, default namespaces changing on the way down, values and value prefix data of any kind, character data next to child
     elements — that satisfies the decidable well-formedness predicate `XmlTree.opaqOk` (names and prefixes are XML names other
     than `xmlns`; no forbidden control characters; an attribute has a prefix exactly when it has a namespace; the attributes of
-    an element differ by expanded name; an element without namespace has no ancestor with one; per start tag the values need
-    one uri per prefix), the document the model of `xml_print_data` / `xml_print_opaq` / `xml_print_attr` / `xml_print_ns`
-    emits (shrink mode; the variant with both repairs of `xml_print_ns`) is well-formed XML 1.0 with namespaces, and the
+    an element differ by expanded name; an element without namespace has no ancestor with one — finding F300, see (c′) below;
+    per start tag the values need one uri per prefix), the document the model of `xml_print_data` / `xml_print_opaq` / `xml_print_attr` / `xml_print_ns`
+    emits (shrink mode; every variant with both repairs of `xml_print_ns`, with or without the repair of F300) is well-formed XML 1.0 with namespaces, and the
     independent reader written from the two standards (`XmlDoc.parseDoc`: attribute syntax and normalisation, declarations
     scoped to the element and its content, the innermost binding wins, the default namespace applies to elements only, a
     prefix must be declared, no declaration and no expanded attribute name twice in a start tag) recovers EXACTLY
@@ -252,7 +252,53 @@ open XmlTree in
 theorem opaque_document_faithful (fx : Fixes) (hn : fx.numbered = true) (hr : fx.reserved = true) (forest : List ONode)
     (h : opaqOk forest = true) :
     XmlDoc.parseDoc (printOpaqData fx forest) = some (oviewList forest) :=
-  parseDoc_printOpaqData fx hn hr forest (opaqOk_sound forest h)
+  parseDoc_printOpaqData fx hn hr true (fun h => nomatch h) forest (opaqOk_sound forest h)
+
+open XmlTree in
+/-- **(c′) … for elements in no namespace anywhere** — the statement at full strength, `opaqOkAnyNs`: `opaqOk` without the
+    conjunct "an element without namespace has no ancestor with one".  True of the variant of the printer that writes
+    `xmlns=""` for an element in no namespace when a non-empty default namespace is in scope (`Fixes.undeclare`, the candidate
+    repair of finding F300; `tools/extractors/xmlns.py` reads off `xml_print_opaq_open` whether the source has it, and
+    `opaque_document_faithful` is the part that holds of both variants). -/
+theorem opaque_document_faithful_any_namespace (fx : Fixes) (hn : fx.numbered = true) (hr : fx.reserved = true)
+    (hu : fx.undeclare = true) (forest : List ONode) (h : opaqOkAnyNs forest = true) :
+    XmlDoc.parseDoc (printOpaqData fx forest) = some (oviewList forest) :=
+  parseDoc_printOpaqData fx hn hr false (fun _ => hu) forest (opaqOkAnyNs_sound forest h)
+
+/-- the namespace and name the reader reports for the only child of the only top-level element -/
+def innerName : Option (List XmlDoc.XElem) → Bytes × Bytes
+  | some [.mk _ _ _ _ [.mk ns n _ _ _]] => (ns, n)
+  | _ => ([], [])
+
+open XmlTree in
+/-- F300: of the code as it is (no undeclaration) the full statement is false.  The tree libyang builds for `<a xmlns="o"><b
+    xmlns="">t</b></a>` (`b` in no namespace) is printed as `<a xmlns="o"><b>t</b></a>`: every reader puts `b` into `o`.
+    The check replays this document on libyang on every run. -/
+theorem opaque_document_faithful_any_namespace_fails_without_undeclaration :
+    ¬ ∀ (fx : Fixes) (forest : List ONode), fx.numbered = true → fx.reserved = true → opaqOkAnyNs forest = true →
+      XmlDoc.parseDoc (printOpaqData fx forest) = some (oviewList forest) := by
+  intro h
+  have := h ⟨true, true, false⟩ [.mk [97] none (some [111]) [] [] [] [.mk [98] none none [116] [(none, [])] [] []]] rfl rfl (by decide)
+  have := congrArg innerName this
+  revert this
+  decide +kernel
+
+/-- non-vacuity of (c′): the same tree and a deeper one — `b` in no namespace below `a` in `o`, `c` in `o` again below `b`, `d`
+    in no namespace below `c` — are `opaqOkAnyNs` but not `opaqOk`; the repaired variant prints `xmlns=""` where needed and only
+    there (`e`, in no namespace below `d`, inherits the undeclaration) -/
+def exOpaqNoNs : List XmlTree.ONode :=
+  [.mk [97] none (some [111]) [] [] []
+    [.mk [98] none none [] [] [⟨some [112], some [49], [107], [118], []⟩]
+      [.mk [99] none (some [111]) [] [] [] [.mk [100] none none [] [] [] [.mk [101] none none [116] [(none, [])] [] []]]]]]
+
+example : XmlTree.opaqOkAnyNs exOpaqNoNs = true ∧ XmlTree.opaqOk exOpaqNoNs = false := by decide
+
+example : XmlTree.printOpaqData XmlTree.Fixes.all exOpaqNoNs = bytesOfString
+    "<a xmlns=\"o\"><b xmlns=\"\" xmlns:p=\"1\" p:k=\"v\"><c xmlns=\"o\"><d xmlns=\"\"><e>t</e></d></c></b></a>" := by
+  decide +kernel
+
+example : XmlDoc.parseDoc (XmlTree.printOpaqData XmlTree.Fixes.all exOpaqNoNs) = some (XmlTree.oviewList exOpaqNoNs) :=
+  opaque_document_faithful_any_namespace XmlTree.Fixes.all rfl rfl rfl exOpaqNoNs (by decide)
 
 /-- the attributes the reader reports for the only child of the only top-level element -/
 def innerAttrs : Option (List XmlDoc.XElem) → List (Bytes × Bytes × Bytes)
@@ -266,7 +312,7 @@ theorem opaque_document_faithful_fails_without_numbered_prefixes :
     ¬ ∀ (fx : Fixes) (forest : List ONode), fx.reserved = true → opaqOk forest = true →
       XmlDoc.parseDoc (printOpaqData fx forest) = some (oviewList forest) := by
   intro h
-  have := h ⟨false, true⟩
+  have := h ⟨false, true, true⟩
     [.mk [114] none (some [111]) [] [] [⟨some [112], some [50], [107], [49], []⟩]
       [.mk [101] none (some [111]) [] [] [⟨some [120], some [50], [97], [118], []⟩, ⟨some [112], some [49], [98], [119], []⟩] []]]
     rfl (by decide)
@@ -281,7 +327,7 @@ theorem opaque_document_faithful_fails_without_reserved_check :
     ¬ ∀ (fx : Fixes) (forest : List ONode), fx.numbered = true → opaqOk forest = true →
       XmlDoc.parseDoc (printOpaqData fx forest) = some (oviewList forest) := by
   intro h
-  have := h ⟨true, false⟩
+  have := h ⟨true, false, true⟩
     [.mk [114] none (some [111]) [] [] [⟨some [113], some [49], [107], [49], []⟩]
       [.mk [101] none (some [111]) [] [] [⟨some [112], some [49], [97], [113, 58, 120], [(some [113], [50])]⟩] []]]
     rfl (by decide)
